@@ -24,7 +24,7 @@ PROP = "C15"
 SHARDS = {"quick": 8, "thorough": 16}
 TIME_CAP = {"quick": 600, "thorough": 2700}   # wall-clock guard only (loaded machines); budgets are counts
 CPU_CAP = {"quick": 150, "thorough": 900}      # CPU seconds per worker (nominal: ~8 s quick, ~80 s thorough)
-REQUIRED = ["histories", "steps_checked", "fields_set_checks", "is_set_checks", "serialize_default_checks", "serialize_all_checks",
+REQUIRED = ["initvar_not_a_field_checks", "histories", "steps_checked", "fields_set_checks", "is_set_checks", "serialize_default_checks", "serialize_all_checks",
             "op:ctor", "op:deser", "op:assign", "op:set", "op:set_overwrite", "op:unset", "op:replace",
             "override_constructors_histories", "old_instance_checks", "nested_serialize_checks", "nested_deserialize_checks", "global_setting_checks",
             "undecorated_class_checks", "nonempty_unset_observed", "random_histories"]
@@ -358,6 +358,14 @@ class Runner:
             return None
         obs = set(fs) & set(fam.names)
         env.count("fields_set_checks")
+        # an InitVar is a constructor argument, not a field: its name is never "set" by construction / deserialization
+        # (after apischema.dataclasses.replace or an explicit set_fields naming it, membership is unspecified)
+        if fam.initvars:
+            env.count("initvar_not_a_field_checks")
+            named = any(op[0] == "replace" or (op[0] in ("set", "assign") and set(fam.initvars) & set(op[1] if isinstance(op[1], (tuple, list, set)) else (op[1],))) for op in ops[: step + 1])
+            ivs = sorted(set(fam.initvars) & set(fs))
+            if ivs and not named:
+                self.violation("fields_set-contains-initvar", ops, step, {"created_by": ops[0][0]}, observed=sorted(fs), initvars=ivs)
         if st.U:
             env.count("abstain:unspecified-membership", len(st.U))
         missing = sorted(n for n in st.S - st.U if n not in obs)
